@@ -78,8 +78,26 @@ def _run_one(target: str, timeout: int, per_path: int, env_extra: Dict[str, str]
     return res
 
 
+def _lint_no_nested_contracts(source: str) -> None:
+    """CrossHair enforces the PEP316 contracts of *called* functions: a callee whose `post:` fails raises inside the caller,
+    the caller's path is dropped and the caller can come back "Confirmed".  Generated partition functions must therefore only
+    call contract-free helpers."""
+    import ast
+    import importlib
+
+    for node in ast.parse(source).body:
+        if isinstance(node, ast.ImportFrom) and node.module and node.module.startswith("harness"):
+            mod = importlib.import_module(node.module)
+            for a in node.names:
+                obj = getattr(mod, a.name, None)
+                doc = getattr(obj, "__doc__", None) or ""
+                if callable(obj) and ("post:" in doc or "pre:" in doc):
+                    raise RuntimeError(f"generated harness imports {node.module}.{a.name}, which carries its own contract")
+
+
 def write_module(name: str, source: str) -> str:
     """generated harness module (explicit function definitions) under /verif/.scratch, importable as `name`"""
+    _lint_no_nested_contracts(source)
     os.makedirs("/verif/.scratch", exist_ok=True)
     path = f"/verif/.scratch/{name}.py"
     with open(path, "w") as f:
